@@ -473,6 +473,37 @@ fn extension_mutations(prop: &str, i: u64, rng: &mut Rng, out: &mut Outcome, dir
     w.cleanup();
 }
 
+/// A second TEXT for the same bytes: base64 that decodes (under a lenient decoder) to exactly what the
+/// canonical text decodes to. None if the canonical text offers no room for the variant.
+fn non_canonical_base64(c: &str, rng: &mut Rng) -> Option<(&'static str, String)> {
+    let pad = c.chars().rev().take_while(|ch| *ch == '=').count();
+    let body = &c[..c.len() - pad];
+    match rng.below(6) {
+        0 if pad > 0 => Some(("content-base64-padding-stripped", body.to_string())),
+        0 | 1 if pad == 2 => Some(("content-base64-one-of-two-paddings-stripped", format!("{body}="))),
+        1 | 2 => Some(("content-base64-extra-padding", format!("{c}="))),
+        3 if c.contains('+') || c.contains('/') => Some(("content-base64-url-safe-alphabet", c.replace('+', "-").replace('/', "_"))),
+        3 | 4 => {
+            let mid = c.len() / 2 / 4 * 4;
+            Some(("content-base64-with-a-line-break", format!("{}\n{}", &c[..mid], &c[mid..])))
+        }
+        _ => {
+            // non-zero trailing bits: the last symbol before the padding carries bits that are not data
+            if pad == 0 {
+                return None;
+            }
+            const ABC: &[u8] = b"ABCDEFGHIJKLMNOPQRSTUVWXYZabcdefghijklmnopqrstuvwxyz0123456789+/";
+            let last = body.as_bytes()[body.len() - 1];
+            let idx = ABC.iter().position(|x| *x == last)?;
+            let alt = ABC[idx | 1];
+            if alt == last {
+                return None;
+            }
+            Some(("content-base64-non-zero-trailing-bits", format!("{}{}{}", &body[..body.len() - 1], alt as char, "=".repeat(pad))))
+        }
+    }
+}
+
 /// (C) key-package events and (D) welcome rumors.
 fn keypackage_and_welcome(prop: &str, i: u64, rng: &mut Rng, out: &mut Outcome, dir: &std::path::Path) {
     let mut w = World::empty(dir.to_path_buf(), format!("c15k-{i}"));
@@ -513,7 +544,7 @@ fn keypackage_and_welcome(prop: &str, i: u64, rng: &mut Rng, out: &mut Outcome, 
         }
         // another package of the same user (for the foreign `i` tag)
         let other_i = with_mdk!(w.clients[b].mdk, x => x.create_key_package_for_event(&keys.public_key(), vec![relay(0)])).ok().and_then(|(_, t, _)| t.iter().find(|t| t.kind() == TagKind::i()).and_then(|t| t.content().map(|s| s.to_string())));
-        let k = rng.below(22);
+        let k = rng.below(24);
         let mut t2: Vec<Tag> = tags.clone();
         let mut c2 = content.clone();
         let mut kind = Kind::MlsKeyPackage;
@@ -580,6 +611,16 @@ fn keypackage_and_welcome(prop: &str, i: u64, rng: &mut Rng, out: &mut Outcome, 
                 c2 = format!("{}!!", &c2[..c2.len() - 2]);
                 "content-not-base64"
             }
+            22 | 23 => match non_canonical_base64(&c2, rng) {
+                Some((l, v)) => {
+                    c2 = v;
+                    l
+                }
+                None => {
+                    c2 = format!("{c2}=");
+                    "content-base64-extra-padding"
+                }
+            },
             12 => {
                 let raw = B64.decode(c2.as_bytes()).unwrap_or_default();
                 c2 = B64.encode(&raw[..raw.len() / 2]);
@@ -648,7 +689,7 @@ fn keypackage_and_welcome(prop: &str, i: u64, rng: &mut Rng, out: &mut Outcome, 
         let Ok(res) = with_mdk!(w.clients[a].mdk, x => x.create_group(&apk, vec![kp], conf)) else { continue };
         let valid = res.welcome_rumors[0].clone();
         let mut r = valid.clone();
-        let k = rng.below(12);
+        let k = rng.below(16);
         let label: &str = match k {
             0 => {
                 r.kind = Kind::MlsKeyPackage;
@@ -690,6 +731,16 @@ fn keypackage_and_welcome(prop: &str, i: u64, rng: &mut Rng, out: &mut Outcome, 
                 r.content = format!("{}**", &r.content[..r.content.len() - 2]);
                 "content-not-base64"
             }
+            12 | 13 | 14 => match non_canonical_base64(&r.content.clone(), rng) {
+                Some((l, v)) => {
+                    r.content = v;
+                    l
+                }
+                None => {
+                    r.content = format!("{}=", r.content);
+                    "content-base64-extra-padding"
+                }
+            },
             9 | 10 => {
                 // the reference to the key-package event cut short or prolonged by one byte
                 let real = r.tags.iter().find(|t| t.kind() == TagKind::e()).and_then(|t| t.content().map(|s| s.to_string())).unwrap_or_default();
